@@ -189,29 +189,54 @@ def crossing_unit(h):
 SS = z3.Function('searchsorted_left', z3.RealSort(), Z)
 
 
-@unit('C05', 'segment-altitude-and-time-cells', [G + ':Gridder._trajectory_segment_altitude_grid_indices', G + ':Gridder._trajectory_segment_time_grid_indices'])
+@unit('C05', 'segment-altitude-and-time-cells', [G + ':Gridder._trajectory_segment_altitude_grid_indices', G + ':Gridder._trajectory_segment_time_grid_indices',
+                                                  G + ':_cell_indices'], replay='contracts.C05:replay_outer')
 def vertical_unit(h):
-    """Each segment's altitude / time cell is the cell of its start point: searchsorted(axis, value) - 1 for all
-    points but the last."""
+    """Each segment's altitude / time cell is the cell that contains its start point: for a start value inside the axis
+    (first edge <= value <= last edge, the edges included) the reported index c is one of the axis' cells (0 <= c <= number of
+    edges - 2) and edge c <= value <= edge c + 1.  Stated from the property, not from the index arithmetic; np.searchsorted is
+    used by its contract."""
     gu.install(h)
-    h.trust('np.searchsorted(a, v) (side left) returns for each v the number of entries of a below v')
+    h.trust('np.searchsorted(a, v) (side left) on an increasing array a of m entries returns for each v a position p with 0 <= p <= m, '
+            'a[p - 1] < v if p > 0, and v <= a[p] if p < m')
     n = h.int('n_points')
     h.assume(n >= 2)
     which = h.choice(2)
     g, glat, glon, galt, gtim = gu.make_gridder(h, True, True)
+    axis = [galt, gtim][which]
+    m = to_z3(h.I.len_(axis))
+    h.assume(m >= 2, 'an axis has at least one cell (two edges)')
+    h.assume(to_real(axis.at(0)) < to_real(axis.at(1)), 'axis edges increase (instance: the first two)')
     vals = SArr.symbolic(h.ctx, 'value', n)
     seen = []
 
     def searchsorted(I_, a, v, **kw):
         seen.append(a)
-        return SArr(I_.len_(v), lambda k: SS(to_real(v.at(k))))
+
+        def pos(k):
+            vk = to_real(v.at(k))
+            p = SS(vk)
+            I_.ctx.axiom(z3.And(p >= 0, p <= m, z3.Implies(p > 0, to_real(a.at(p - 1)) < vk), z3.Implies(p < m, vk <= to_real(a.at(p)))))
+            return p
+        return SArr(I_.len_(v), pos)
     h.I.models['numpy.searchsorted'] = searchsorted
     r = h.method(g, ['_trajectory_segment_altitude_grid_indices', '_trajectory_segment_time_grid_indices'][which], vals)
     h.ensure('one-cell-per-segment', to_z3(h.I.len_(r)) == n - 1)
     j = h.int('any_segment')
     h.assume(z3.And(j >= 0, j < n - 1))
-    h.ensure('cell-of-the-segments-start-point', to_z3(r.at(j)) == SS(to_real(vals.at(j))) - 1)
-    h.ensure('looked-up-on-the-right-axis', len(seen) == 1 and seen[0] is [galt, gtim][which])
+    v = to_real(vals.at(j))
+    h.ctx.named['start_value'], h.ctx.named['first_edge'], h.ctx.named['second_edge'] = v, to_real(axis.at(0)), to_real(axis.at(1))
+    h.assume(z3.And(to_real(axis.at(0)) <= v, v <= to_real(axis.at(m - 1))), 'the start point lies within the axis (edges included)')
+    c = to_z3(r.at(j))
+    h.ensure('the-reported-cell-is-a-cell-of-the-axis', z3.And(c >= 0, c <= m - 2))
+    h.ensure('the-reported-cell-contains-the-start-point', z3.And(to_real(axis.at(c)) <= v, v <= to_real(axis.at(c + 1))))
+    h.ensure('looked-up-on-the-right-axis', len(seen) == 1 and seen[0] is axis)
+
+
+def replay_outer(payload):
+    from contracts.gridcheck import run_families
+    r = run_families(dict(tier='quick', only='outer-lines'))
+    return dict(reproduced=bool(r['c05']), observed=r['c05'][:4], cases=r['cases'])
 
 
 @unit('C05', 'line-parameters', [G + ':calculate_line_parameters'], replay='contracts.C05:replay_line')
